@@ -124,7 +124,8 @@ Definition aligned_b (eq : string) : bool :=
   | None => false
   end.
 (* the guard of the text-level theorem, as one boolean *)
-Definition text_guard (eq : string) : bool := aligned_b eq && gaps_brace_free (scan_items eq).
+Definition text_guard (eq : string) : bool :=
+  negb (head_is "`" eq && last_is "`" eq) && aligned_b eq && gaps_brace_free (scan_items eq).
 
 (* ====================================================================================================== *)
 (* Part 2: tokens, trees, statements, programs                                                            *)
@@ -307,6 +308,19 @@ Section Tree.
     stmt_of_tokens (lex_items LNone (scan_items eq)).
 End Tree.
 
+(* A series NAME is accessed as the attribute `_NAME` of `self` INSIDE A CLASS BODY: when `_NAME` begins with two
+   underscores and does not end with two, CPython's private-name mangling rewrites `self.__x` to `self._Model__x`, an
+   attribute that does not exist (genuine defect: `Y = _x + 1` raises AttributeError when evaluated).  Such a series
+   has no row here: a statement that names it is outside the subset (fail-closed), see CodeGenExamples. *)
+Fixpoint ends_with_2 (c : ascii) (s : string) : bool :=
+  match s with
+  | "" => false
+  | String a "" => false
+  | String a (String b "") => Ascii.eqb a c && Ascii.eqb b c
+  | String _ r => ends_with_2 c r
+  end.
+Definition mangled (name : string) : bool := head_is "_" name && negb (ends_with_2 "_" (String "_" name)).
+
 (* NAMES = ENDOGENOUS + EXOGENOUS + PARAMETERS + ERRORS, each in symbol order (build_model_definition) *)
 Definition names_of_type (ty : ptype) (syms : list symbol) : list string :=
   flat_map (fun s => if type_eqb (stype s) ty then (match sname s with Some n => [n] | None => [] end) else []) syms.
@@ -318,6 +332,9 @@ Fixpoint index_of (x : string) (l : list string) : option nat :=
   | [] => None
   | y :: r => if String.eqb x y then Some 0 else match index_of x r with Some i => Some (S i) | None => None end
   end.
+
+(* the row of a series: its position in NAMES, unless its attribute name is mangled *)
+Definition row_of (names : list string) (x : string) : option nat := if mangled x then None else index_of x names.
 
 Fixpoint assoc_stmt (n : string) (defs : list (string * sstmt)) : option sstmt :=
   match defs with
@@ -331,7 +348,7 @@ Definition program_of_symbols (syms : list symbol) (stmts : list string) : optio
   if existsb (fun s => type_eqb (stype s) TVerbatim) syms then None
   else
     let names := names_of syms in
-    match all_some (map (stmt_of_equation (fun x => index_of x names)) stmts) with
+    match all_some (map (stmt_of_equation (row_of names)) stmts) with
     | None => None
     | Some defs =>
       match all_some (map (fun s => match sname s with Some n => assoc_stmt n defs | None => None end)
